@@ -129,6 +129,15 @@ def check_uniqueness(ctx):
     ctx.check("C01.U", "Flavour.__init__:tables-keyed-by-id-and-mnemonic", ok,
               f"Flavour.__init__ builds tables keyed by {sorted(maps)} (expected instr.id and instr.mnemonic mapping to the class itself)",
               fc.loc(init))
+    # every flavour instance owns its tables: they are updated in place with the flavour-specific classes
+    for table in ("id_map", "name_map"):
+        assigns = [n for n in A.body_nodes(init) if isinstance(n, ast.Assign) and len(n.targets) == 1 and A.is_self_attr(n.targets[0], table)]
+        mutated = any(isinstance(c, ast.Call) and isinstance(c.func, ast.Attribute) and c.func.attr in ("update", "setdefault", "pop", "clear") and A.is_self_attr(c.func.value, table) for c in A.calls_in(init)) or \
+            any(isinstance(n, ast.Assign) and isinstance(n.targets[0], ast.Subscript) and A.is_self_attr(n.targets[0].value, table) for n in A.body_nodes(init))
+        fresh = bool(assigns) and all(isinstance(a.value, (ast.Dict, ast.DictComp)) or (isinstance(a.value, ast.Call) and (dotted(a.value.func) in ("dict", "OrderedDict") or (isinstance(a.value.func, ast.Attribute) and a.value.func.attr in ("copy",)) or dotted(a.value.func) in ("copy.copy", "copy.deepcopy"))) for a in assigns)
+        ctx.check("C01.U", f"Flavour.__init__:{table}:owned-by-the-instance", fresh or not mutated,
+                  f"Flavour.__init__ binds self.{table} to `{src(assigns[0].value) if assigns else None}` and then updates it in place: every flavour instance aliases the same table, "
+                  f"so constructing another flavour changes how an existing one decodes opcodes / resolves mnemonics", fc.loc(init), sample={"table": table, "initialised_from": src(assigns[0].value)[:60] if assigns else None})
     for meth, table in (("get_instr_by_id", "id_map"), ("get_instr_by_name", "name_map")):
         f = fc.methods.get(meth)
         if f is None:
@@ -585,10 +594,15 @@ SEEDS = [
          old="app_id=metadata.app_id,", new="app_id=metadata.netqasm_version[0],"),
     dict(id="c01-frame-filter", file="netqasm/lang/subroutine.py", expect="C01.F", construct="all-instructions",
          old="[instr.serialize() for instr in self.instructions]", new="[instr.serialize() for instr in self.instructions if instr.operands]"),
+    dict(id="c01-shared-core-table", expect="C01.U", construct="owned-by-the-instance",
+         edits=[("netqasm/lang/instr/flavour.py", "class Flavour(ABC):", "_CORE_ID_MAP = {instr.id: instr for instr in CORE_INSTRUCTIONS}\n\n\nclass Flavour(ABC):"),
+                ("netqasm/lang/instr/flavour.py", "        self.id_map = {instr.id: instr for instr in CORE_INSTRUCTIONS}", "        self.id_map = _CORE_ID_MAP")]),
     dict(id="c01-reg-name-from-index", file="netqasm/lang/operand.py", expect="C01.P", construct="operand.Register",
          old="return cls(name=reg_name, index=raw.register_index)", new="return cls(name=reg_name, index=raw.register_name)"),
 ]
 BENIGN = [
+    dict(id="c01-benign-shared-core-copied", edits=[("netqasm/lang/instr/flavour.py", "class Flavour(ABC):", "_CORE_ID_MAP = {instr.id: instr for instr in CORE_INSTRUCTIONS}\n\n\nclass Flavour(ABC):"),
+                ("netqasm/lang/instr/flavour.py", "        self.id_map = {instr.id: instr for instr in CORE_INSTRUCTIONS}", "        self.id_map = dict(_CORE_ID_MAP)")]),
     dict(id="c01-benign-inline", file=B,
          old="        reg0 = Register.from_raw(c_struct.reg0)\n        reg1 = Register.from_raw(c_struct.reg1)\n        return cls(reg0=reg0, reg1=reg1)\n",
          new="        return cls(reg0=Register.from_raw(c_struct.reg0), reg1=Register.from_raw(c_struct.reg1))\n"),
